@@ -1,6 +1,7 @@
 package checks
 
 import (
+	"fmt"
 	"strings"
 	"time"
 
@@ -63,6 +64,7 @@ func c17Case(rules []T, viaExpand bool, inputs []string) *h.ProgCase {
 }
 
 func c17Work(w *h.W) {
+	c17RuntimeWork(w)
 	c17NestedWork(w)
 	inputs := c17Inputs(w.Pick(3, 4))
 	n := len(c17Items)
@@ -134,6 +136,46 @@ func c17NotCommitted(r *h.StepResult) string {
 	return "the nested cut does not commit the rule: the reference's answers, then answers of alternatives the cut removes"
 }
 
+// non-terminals built at run time (=../2, functor/3 + arg unification, copy_term/2) of every arity 0..16, the SAME
+// term instance used several times in one grammar body
+func c17RuntimeWork(w *h.W) {
+	for n := 0; n <= w.Pick(16, 24); n++ {
+		if !w.Mine() {
+			continue
+		}
+		var hs, zs []string
+		for i := 0; i < n; i++ {
+			hs = append(hs, fmt.Sprintf("A%d", i))
+			zs = append(zs, "0")
+		}
+		head := "q(" + strings.Join(append(append([]string{}, hs...), "[x|S]", "S"), ", ") + ")"
+		head2 := "q(" + strings.Join(append(append([]string{}, hs...), "[y, y|S]", "S"), ", ") + ")"
+		cls := []T{rd(head), rd(head2)}
+		zl := "[" + strings.Join(zs, ", ") + "]"
+		builds := []string{
+			"G =.. [q|" + zl + "]",
+			fmt.Sprintf("length(Zs, %d), G =.. [q|Zs]", n),
+			fmt.Sprintf("functor(G, q, %d)", n),
+			"G0 =.. [q|" + zl + "], copy_term(G0, G)",
+		}
+		if n == 0 {
+			builds = []string{"G = q"}
+		}
+		bodies := []string{"(G, [b], G)", "((G ; [c]), G)", "(\\+ G, [b] ; G, G)", "(G, G, G)", "(call(G), G)", "([b], G)", "(G -> G ; [])"}
+		pc := &h.ProgCase{DQ: "chars", Budget: 20000, Steps: []h.ProgStep{h.Consult(cls...)}}
+		for _, b := range builds {
+			for _, body := range bodies {
+				for _, q := range []string{"phrase(" + body + ", L)", "phrase(" + body + ", [x, b, x])", "phrase(" + body + ", [x, b|T], R)", "phrase(" + body + ", [k])"} {
+					st := h.Query(rd(b+", "+q), 10)
+					st.Vars = []string{"L", "T", "R"}
+					pc.Steps = append(pc.Steps, st)
+				}
+			}
+		}
+		runProgCase(w, "dcg-runtime-nonterminal", pc, n)
+	}
+}
+
 func c17NestedWork(w *h.W) {
 	inputs := c17Inputs(w.Pick(3, 4))
 	tails := []string{"", "[b]", "t(X)", "{Y = k}", "u"}
@@ -168,7 +210,7 @@ var _ = strings.Join
 func init() {
 	h.Register(&h.Check{
 		ID: "C17",
-		Rule: "all grammars whose rule s(X,Y) --> Body ranges over every sequence of <= L body constructs out of 37 (terminal lists, a non-ASCII string and terminal, strings, non-terminals with arguments, {}/1, \\+, !, call//N with extra arguments, ;, |, nested sequences, if-then(-else), a push-back non-terminal) over fixed non-left-recursive sub-grammars t//1, u//0, pb//0, pb2//0, pb3//0 (push-back of one terminal, of two, of a string), v//2; each in 9 variants (followed by a second rule; loaded through expand_term/2 + assertz/1; with a push-back head of one terminal, of two, of a string, empty, of three, with a head variable; as one of two top-level alternatives) x all input lists over {a,b} of length <= N (plus lists with c) through phrase/2 and phrase/3 (all remainders), and generation mode with unbound list / given remainder. plus 7 bodies with a cut NESTED inside a parenthesised alternation / if-then-else x 5 goals before x 5 goals after (known finding: such a cut is local here). Non-trivial = the reference yields an answer or error.",
+		Rule: "all grammars whose rule s(X,Y) --> Body ranges over every sequence of <= L body constructs out of 37 (terminal lists, a non-ASCII string and terminal, strings, non-terminals with arguments, {}/1, \\+, !, call//N with extra arguments, ;, |, nested sequences, if-then(-else), a push-back non-terminal) over fixed non-left-recursive sub-grammars t//1, u//0, pb//0, pb2//0, pb3//0 (push-back of one terminal, of two, of a string), v//2; each in 9 variants (followed by a second rule; loaded through expand_term/2 + assertz/1; with a push-back head of one terminal, of two, of a string, empty, of three, with a head variable; as one of two top-level alternatives) x all input lists over {a,b} of length <= N (plus lists with c) through phrase/2 and phrase/3 (all remainders), and generation mode with unbound list / given remainder. plus non-terminals BUILT AT RUN TIME (=../2, functor/3, copy_term/2) of every arity 0..16 (24), the same term instance used several times in 7 bodies x 4 phrase/2,3 queries; plus 7 bodies with a cut NESTED inside a parenthesised alternation / if-then-else x 5 goals before x 5 goals after (known finding: such a cut is local here). Non-trivial = the reference yields an answer or error.",
 		Explanation: "state = one grammar loaded into a fresh real interpreter; transition = one phrase/2,3 query run to exhaustion; compared with a DIRECT interpreter of grammar bodies over difference lists inside the reference machine (sequence threads the remainder, alternation is a choice, {} calls, \\+ consumes nothing, ! commits to the rule, push-back re-prepends) - which never translates a rule - on success/failure, argument bindings, remainder and answer order",
 		Assumptions: []string{"'!' occurs only as a direct element of a rule's top-level sequence or alternative (as C03)", "double_quotes = chars so that \"ab\" denotes [a,b]"},
 		Work:        c17Work,
